@@ -24,17 +24,30 @@ class Uncontrolled(Exception):
 
 
 def _install(rb=None, rnd=None):
-    saved = (_inst.__dict__.get("_randbelow", None), _inst.__dict__.get("random", None), random.random)
+    saved = (_inst.__dict__.get("_randbelow", None), _inst.__dict__.get("random", None), random.random,
+             random.getrandbits, random.randbytes)
     if rb is not None:
         _inst._randbelow = rb
     if rnd is not None:
         _inst.random = rnd
         random.random = rnd
+
+        # raw bit sources are derived from the (scripted) float source, so that code drawing through
+        # random.getrandbits / random.randbytes is owned as well: k bits = floor(u * 2**k)
+        def grb(k):
+            return int(rnd() * (1 << k)) if k > 0 else 0
+
+        def rbytes(n):
+            return bytes(int(rnd() * 256) for _ in range(n))
+        random.getrandbits = grb
+        random.randbytes = rbytes
     return saved
 
 
 def _restore(saved):
-    rb, rnd, modrnd = saved
+    rb, rnd, modrnd, modgrb, modrbytes = saved
+    random.getrandbits = modgrb
+    random.randbytes = modrbytes
     if rb is None:
         _inst.__dict__.pop("_randbelow", None)
     else:
